@@ -189,9 +189,10 @@ var (
 
 func doUnmarshal(t reflect.Type, b []byte) string {
 	unmarshalTurn++
-	turn := unmarshalTurn % 3
+	turn := unmarshalTurn % 5
 	out := guard(func() string {
-		switch prev := lastDecoded[t]; {
+		prev := lastDecoded[t]
+		switch {
 		case turn == 1:
 			arr := reflect.New(reflect.SliceOf(t))
 			v, err := codec.UnmarshalArrayElement(b, arr.Interface())
@@ -210,8 +211,23 @@ func doUnmarshal(t reflect.Type, b []byte) string {
 			return showStruct(arr.Elem().Index(1))
 		}
 		p := reflect.New(t)
-		if err := codec.Unmarshal(b, p.Interface()); err != nil {
+		if turn == 3 && prev != nil && !hasPointerField(t) {
+			// the destination already holds another decoded message of this type: every field must be overwritten.
+			// (Not for layouts with nil-tolerant pointer fields: an out-of-domain optional field leaves the pointer as
+			// it was, which for a fresh destination - the only way the library itself decodes - is nil.)
+			if err := codec.Unmarshal(prev, p.Interface()); err != nil {
+				p = reflect.New(t)
+			}
+		}
+		own := append([]byte{}, b...)
+		if err := codec.Unmarshal(own, p.Interface()); err != nil {
 			return "err"
+		}
+		if turn == 4 {
+			// the decoded value shares no memory with the input buffer: overwrite the buffer, then look at the value
+			for i := range own {
+				own[i] ^= 0xa5
+			}
 		}
 		return showStruct(p.Elem())
 	})
@@ -219,6 +235,19 @@ func doUnmarshal(t reflect.Type, b []byte) string {
 		lastDecoded[t] = append([]byte{}, b...)
 	}
 	return out
+}
+
+func hasPointerField(t reflect.Type) bool {
+	for i := 0; i < t.NumField(); i++ {
+		f := t.Field(i)
+		if f.Type.Kind() == reflect.Ptr {
+			return true
+		}
+		if f.Anonymous && f.Type.Kind() == reflect.Struct && hasPointerField(f.Type) {
+			return true
+		}
+	}
+	return false
 }
 
 func valueKinds(fs []fieldDesc) []string {
@@ -397,13 +426,19 @@ func streamCodec(c *ctx) {
 			body = append(body, fieldDesc{Kind: "u8", Off: 8})
 		}
 		if r.Chance(1, 4) && len(body) >= 2 { // one level of embedding
-			cut := 1 + r.Intn(len(body)-1)
-			inner := body[cut:]
+			// the embedded struct takes a slice of the fields: at the end, in the middle (fields follow it) or at the start
+			cut := r.Intn(len(body))
+			end := cut + 1 + r.Intn(len(body)-cut)
+			if r.Bool() {
+				end = len(body)
+			}
+			inner := append([]fieldDesc{}, body[cut:end]...)
 			if r.Chance(1, 3) {
 				inner = append([]fieldDesc{{Kind: "msg", Tag: tagText(r, code)}}, inner...)
 			}
 			fs = append(fs, body[:cut]...)
 			fs = append(fs, fieldDesc{Embed: inner})
+			fs = append(fs, body[end:]...)
 		} else {
 			fs = append(fs, body...)
 		}
